@@ -6,6 +6,8 @@ import (
 	"fmt"
 	"math/rand"
 	"os"
+	"sort"
+	"time"
 
 	"vh/abs"
 	"vh/recsess"
@@ -26,6 +28,7 @@ func cmdRecordSession(args []string) error {
 	nclients := fs.Int("clients", 2, "clients per episode")
 	profile := fs.String("profile", "C01", "generator profile")
 	out := fs.String("o", "trace.ndjson", "output trace")
+	nhandlers := fs.Int("handlers", 0, "event handlers registered on every client's cache before the history starts")
 	_ = fs.Parse(args)
 
 	s, err := abs.NamedSchema(*name, *sseed)
@@ -56,6 +59,7 @@ func cmdRecordSession(args []string) error {
 	g := abs.NewGen(s, *seed, p)
 	methods := []string{"monitor", "monitor_cond", "monitor_cond_since"}
 	done := 0
+	markerN := 0
 	for done < *n {
 		in, err := rectxn.NewInst(0, b, tok, true, dir)
 		if err != nil {
@@ -99,7 +103,56 @@ func cmdRecordSession(args []string) error {
 				closeAll()
 				return fmt.Errorf("client %d: %v", i+1, err)
 			}
+			if *nhandlers > 0 {
+				c.AddHandlers(*nhandlers)
+			}
 			clients = append(clients, c)
+		}
+		// flush: a marker row per client makes sure every earlier event has been delivered
+		flush := func() error {
+			if *nhandlers == 0 {
+				return nil
+			}
+			for _, c := range clients {
+				barrier, landed := false, false
+				var tables []string
+				for t := range c.Monitored {
+					tables = append(tables, t)
+				}
+				sort.Strings(tables)
+				for _, t := range tables {
+					markerN++
+					u := fmt.Sprintf("u%d", 9000+markerN)
+					saved := g.P
+					g.P.Index, g.P.Refs = 0, 0
+					row := g.MarkerRow(t, fmt.Sprintf("mk%d", markerN), markerN)
+					g.P = saved
+					o := abs.AOp{Op: "insert", Table: t, UUID: u, Row: row}
+					o.Normalize()
+					dump, err := in.RunTxn(rec, []abs.AOp{o})
+					if err != nil {
+						return err
+					}
+					g.SetState(dump)
+					if _, ok := dump[t].(map[string]interface{})[u]; !ok {
+						continue // the marker was rejected or garbage collected: try another table
+					}
+					barrier = c.WaitMarker(u, 10*time.Second)
+					landed = true
+					break
+				}
+				if !landed {
+					continue // no marker row could be inserted: nothing to synchronise on this time
+				}
+				ev, err := c.EventsEvent(0, barrier)
+				if err != nil {
+					return err
+				}
+				if err := rec.Emit(ev); err != nil {
+					return err
+				}
+			}
+			return nil
 		}
 		for k := 0; k < *episode && done < *n; k++ {
 			// now and then a client establishes a (further) monitor
@@ -167,6 +220,16 @@ func cmdRecordSession(args []string) error {
 					return err
 				}
 			}
+			if k%8 == 7 {
+				if err := flush(); err != nil {
+					closeAll()
+					return err
+				}
+			}
+		}
+		if err := flush(); err != nil {
+			closeAll()
+			return err
 		}
 		closeAll()
 	}
